@@ -35,15 +35,15 @@ NODE_SHAPES = [(r, n, o) for r in (0, 1) for n in (0, 1) for o in (0, 1, 2)
 CHILD_CONFIGS = [(), (1,), (2,), (1, 1)]     # number of child mutations per sub_nodes entry
 
 
-def shapes(tier):
+def mutation_shapes(tier):
     out = []
     for i in range(len(SPECS[tier])):
         for ns in NODE_SHAPES:
             for ndel in ((0, 1) if tier == 'thorough' else (0,)):
                 for cc in CHILD_CONFIGS:
-                    out.append(dict(spec=i, node=ns, ndel=ndel, children=cc))
+                    out.append(dict(part='mutation', spec=i, node=ns, ndel=ndel, children=cc))
         if tier == 'quick':
-            out.append(dict(spec=i, node=(1, 1, 2), ndel=1, children=(1,)))
+            out.append(dict(part='mutation', spec=i, node=(1, 1, 2), ndel=1, children=(1,)))
     return out
 
 
@@ -121,7 +121,7 @@ def row_obligation(info, rooms_ev, caller, date):
     return zand(znot(sys_ent), *need)
 
 
-def explore(ctx, shape, tier, report):
+def explore_mutation(ctx, shape, tier, report):
     """Inductive step over the mutation tree: the call on one node is executed for real; its recursive
     calls on the children are replaced by a stub that records the call and returns an arbitrary verdict
     (induction hypothesis: an accepted child subtree satisfies the property).  Shown: Ok => this row's
@@ -159,7 +159,7 @@ def explore(ctx, shape, tier, report):
         ie, info = build_insert(w, shape['node'], shape['ndel'], shape['children'], date, caller, entity)
         st = dict(ra=ra, caller=caller, visits=[])
         state['cur'] = st
-        ctxinfo = dict(rooms=rooms_ev, caller=caller, date=date, nodes=[info], max_size=max_size, visits=st['visits'])
+        ctxinfo = dict(part='mutation', rooms=rooms_ev, caller=caller, date=date, nodes=[info], max_size=max_size, visits=st['visits'])
         try:
             res = ctx.exec_fn(vem, [Ref(Cell(ra)), Ref(Cell(ie), True), Ref(Cell(caller))])
         except Panic as p:
@@ -170,7 +170,7 @@ def explore(ctx, shape, tier, report):
         if report.want_sample(accepted):
             ms = ctx.check_sat(True)
             if ms is not None:
-                sc = scenario(ctx, ms, 'sample', ctxinfo)
+                sc = scenario_mutation(ctx, ms, 'sample', ctxinfo)
                 sc['expect'] = dict(result='Ok' if accepted else 'Err')
                 report.sample(sc)
         if not accepted:
@@ -236,7 +236,7 @@ def _failed_roles(m, n, rooms_ev, caller, date):
     return roles
 
 
-def scenario(ctx, m, kind, info):
+def scenario_mutation(ctx, m, kind, info):
     c = Concretizer(m)
     rooms_ev, caller, date, nodes = info['rooms'], info['caller'], info['date'], info['nodes']
     n = nodes[0]
@@ -299,3 +299,212 @@ def scenario(ctx, m, kind, info):
     sc['what'] = 'validate_entity_mutation accepts a row lacking: %s' % ','.join(roles)
     sc['signature'] = 'accepted-without-right:%s' % ('+'.join(roles) or 'unknown')
     return sc
+
+
+# =============================================================================================
+# part 'deletion': RoomAuthorisations::validate_deletion
+
+SHORTS = {'sys.Room': '0.0', 'sys.Authorisation': '0.1', 'sys.UserAuth': '0.2', 'sys.EntityRight': '0.3'}
+DAY = 86400000
+
+
+def deletion_shapes(tier):
+    out = []
+    nmax = 2 if tier == 'quick' else 3
+    for i in range(len(SPECS[tier])):
+        for nn in range(0, nmax + 1):
+            for ne in range(0, nmax + 1 - nn):
+                if nn + ne == 0:
+                    continue
+                # which of the rows are in a room: all combinations for <= 2 items, a few for 3
+                combos = list(itertools.product((0, 1), repeat=nn + ne))
+                for cmb in combos:
+                    out.append(dict(part='deletion', spec=i, nodes=cmb[:nn], edges=cmb[nn:]))
+    return out
+
+
+def now_of(ctx):
+    for e in ctx.events:
+        if e[0] == 'now':
+            return e[1]
+    return None
+
+
+def robust_now(ctx, now, dates):
+    """constraints that make a model replayable under the real clock: now() lies within an hour of the
+    wall clock and no other date of the scenario lies within a day of it"""
+    import time as _t
+    T = int(_t.time() * 1000)
+    cs = [now.z() >= T - 3600000, now.z() <= T + 3600000]
+    for d in dates:
+        if not d.concrete:
+            cs.append(z3.Or(d.z() <= T - DAY, d.z() >= T + DAY))
+    return z3.And(*cs)
+
+
+def all_dates(rooms_ev):
+    out = []
+    for ev in rooms_ev:
+        out += [d for (_, d, _) in ev.admins]
+        for g in ev.groups:
+            out += [d for (_, d, _) in g.users] + [d for (_, d, _) in g.user_admins] + [d for (_, d, _, _) in g.rights]
+    return out
+
+
+def explore_deletion(ctx, shape, tier, report):
+    spec1, spec2 = SPECS[tier][shape['spec']]
+    vd = ctx.method('RoomAuthorisations', 'validate_deletion')
+
+    def path(ctx):
+        w = World(ctx)
+        caller = w.atom('caller', KEYS, 'bytes', n=33)
+        r1, ev1 = build_room(w, ROOMS[0], spec1, KEYS, ENTS, 'r1')
+        r2, ev2 = build_room(w, ROOMS[1], spec2, KEYS, ENTS, 'r2')
+        rooms_ev = [ev1, ev2]
+        rooms = MapV([[ROOMS[0], r1], [ROOMS[1], r2]])
+        ra = w.struct('RoomAuthorisations', signing_key=w.signing_key(caller), rooms=rooms, max_node_size=w.u64('max_node_size'))
+        items = []
+        nodes_v = []
+        for i, in_room in enumerate(shape['nodes']):
+            tag = 'dn%d' % i
+            name = w.atom(tag + '_name', None, 'str')
+            short = w.atom(tag + '_short', None, 'str')
+            room = w.atom(tag + '_room', ROOMS, 'uid', n=16) if in_room else None
+            author = w.atom(tag + '_author', KEYS, 'bytes', n=33)
+            date = w.i64(tag + '_date')
+            nid = w.atom(tag + '_id', None, 'uid', n=16)
+            mdate = w.i64(tag + '_mdate')
+            node = w.node(id=nid, room_id=room, cdate=w.i64(tag + '_cdate'), mdate=mdate, entity=short, author=author)
+            nodes_v.append(Cell(w.struct('NodeDelete', node=node, name=name, date=date)))
+            items.append(dict(kind='node', name=name, short=short, room=room, author=author, date=date, id=nid, mdate=mdate))
+        edges_v = []
+        for i, in_room in enumerate(shape['edges']):
+            tag = 'de%d' % i
+            name = w.atom(tag + '_name', None, 'str')
+            short = w.atom(tag + '_short', None, 'str')
+            # DeletionQuery::build: src_name is the entity's name, edge.src_entity its short name
+            for long_, short_ in SHORTS.items():
+                ctx.add(seq(name, S(lit=long_)) == seq(short, S(lit=short_)))
+                ctx.add(znot(seq(short, S(lit=long_))))
+            room = w.atom(tag + '_room', ROOMS, 'uid', n=16) if in_room else None
+            author = w.atom(tag + '_author', KEYS, 'bytes', n=33)
+            date = w.i64(tag + '_date')
+            src = w.atom(tag + '_src', None, 'uid', n=16)
+            dest = w.atom(tag + '_dest', None, 'uid', n=16)
+            cdate = w.i64(tag + '_cdate')
+            edge = w.edge(src=src, src_entity=short, label=w.atom(tag + '_label', None, 'str'), dest=dest, cdate=cdate, author=author)
+            edges_v.append(Cell(w.struct('EdgeDelete', edge=edge, src_name=name, room_id=w.opt(room), date=date)))
+            items.append(dict(kind='edge', name=name, short=short, room=room, author=author, date=date, src=src, dest=dest, cdate=cdate))
+        dq = w.struct('DeletionQuery', nodes=VecV(nodes_v), node_log=VecV(), updated_nodes=VecV(), edges=VecV(edges_v), edge_log=VecV())
+        info = dict(part='deletion', rooms=rooms_ev, caller=caller, items=items)
+        try:
+            res = ctx.exec_fn(vd, [Ref(Cell(ra)), Ref(Cell(dq), True)])
+        except Panic as p:
+            report.panic(ctx, w, p, info)
+            return
+        now = now_of(ctx)
+        info['now'] = now
+        accepted = res.variant == 0
+        report.path(accepted)
+        dates = all_dates(rooms_ev) + [it['date'] for it in items]
+        if report.want_sample(accepted):
+            ms = ctx.check_sat(robust_now(ctx, now, dates))
+            if ms is not None:
+                sc = scenario_deletion(ctx, ms, 'sample', info)
+                sc['expect'] = dict(result='Ok' if accepted else 'Err')
+                report.sample(sc)
+        if not accepted:
+            report.witness('rejected')
+            return
+        obl = []
+        for it in items:
+            sys_ent = zor(*[seq(it['name'], S(lit=x)) for x in SYS_ENTS])
+            o = [znot(sys_ent)]
+            if it['room'] is not None:
+                own = seq(it['author'], caller)
+                o.append(z3.If(own, granted_in(rooms_ev, it['room'], caller, it['name'], it['date'], 'self'),
+                               granted_in(rooms_ev, it['room'], caller, it['name'], now, 'all')))
+            it['obligation'] = zand(*o)
+            obl.append(it['obligation'])
+        # the tombstones: one per deleted row that is in a room, for that room and row
+        node_log = deref(w.field(dq, 'DeletionQuery', 'node_log').v).elems
+        edge_log = deref(w.field(dq, 'DeletionQuery', 'edge_log').v).elems
+        exp_nodes = [it for it in items if it['kind'] == 'node' and it['room'] is not None]
+        exp_edges = [it for it in items if it['kind'] == 'edge' and it['room'] is not None]
+        logs_ok = len(node_log) == len(exp_nodes) and len(edge_log) == len(exp_edges)
+        log_terms = []
+        if logs_ok:
+            for c, it in zip(node_log, exp_nodes):
+                e = c.v
+                log_terms += [seq(w.field(e, 'NodeDeletionEntry', 'room_id').v, it['room']), seq(w.field(e, 'NodeDeletionEntry', 'id').v, it['id']),
+                              w.field(e, 'NodeDeletionEntry', 'mdate').v.z() == it['mdate'].z(),
+                              w.field(e, 'NodeDeletionEntry', 'deletion_date').v.z() == now.z(),
+                              seq(w.field(e, 'NodeDeletionEntry', 'verifying_key').v, caller)]
+            for c, it in zip(edge_log, exp_edges):
+                e = c.v
+                log_terms += [seq(w.field(e, 'EdgeDeletionEntry', 'room_id').v, it['room']), seq(w.field(e, 'EdgeDeletionEntry', 'src').v, it['src']),
+                              seq(w.field(e, 'EdgeDeletionEntry', 'dest').v, it['dest']),
+                              w.field(e, 'EdgeDeletionEntry', 'deletion_date').v.z() == now.z(),
+                              seq(w.field(e, 'EdgeDeletionEntry', 'verifying_key').v, caller)]
+        prop = zand(*obl)
+        m = ctx.check_sat(zand(znot(prop), robust_now(ctx, now, dates)))
+        if m is None:
+            m = ctx.check_sat(znot(prop))
+        if m is not None:
+            report.violation(ctx, m, 'deletion-accepted-without-right', info)
+            return
+        if not logs_ok:
+            report.violation(ctx, ctx.check_sat(True), 'deletion-log-incomplete', info)
+            return
+        m = ctx.check_sat(znot(zand(*log_terms)))
+        if m is not None:
+            report.violation(ctx, m, 'deletion-log-wrong', info)
+            return
+        report.witness('accepted')
+
+    ctx.explore(path)
+
+
+def scenario_deletion(ctx, m, kind, info):
+    c = Concretizer(m)
+    rooms_ev, caller = info['rooms'], info['caller']
+    items = []
+    roles = []
+    for it in info['items']:
+        d = dict(kind=it['kind'], name=c.atom(it['name'], 'ent'), short=c.atom(it['short'], 'short') or '9.9',
+                 room=None if it['room'] is None else c.atom(it['room'], 'room'), author=c.atom(it['author'], 'key'), date=c.int(it['date']))
+        if d['short'] == '':
+            d['short'] = '9.9'
+        if it['kind'] == 'node':
+            d.update(id=c.atom(it['id'], 'uid'), mdate=c.int(it['mdate']))
+        else:
+            d.update(src=c.atom(it['src'], 'uid'), dest=c.atom(it['dest'], 'uid'), cdate=c.int(it['cdate']))
+        items.append(d)
+        if 'obligation' in it and kind != 'sample' and z3.is_false(m.eval(zb(it['obligation']), model_completion=True)):
+            sys_ent = any(z3.is_true(m.eval(seq(it['name'], S(lit=x)), model_completion=True)) for x in SYS_ENTS)
+            roles.append('%s:%s' % (it['kind'], 'authorisation-entity' if sys_ent else 'no-right'))
+    sc = dict(kind='deletion', property='C01', rooms=[c.room(ev) for ev in rooms_ev], caller=c.atom(caller, 'key'), items=items,
+              model_now=c.int(info['now']) if info.get('now') is not None else None)
+    if kind == 'panic':
+        sc['expect'] = dict(result='panic')
+        return sc
+    if kind == 'sample':
+        return sc
+    sc['expect'] = dict(result='Ok')
+    sc['what'] = 'validate_deletion accepts: %s (%s)' % (kind, ','.join(sorted(set(roles))))
+    sc['signature'] = '%s:%s' % (kind, '+'.join(sorted(set(roles))) or 'log')
+    return sc
+
+
+# =============================================================================================
+
+def shapes(tier):
+    return mutation_shapes(tier) + deletion_shapes(tier)
+
+
+def explore(ctx, shape, tier, report):
+    return {'mutation': explore_mutation, 'deletion': explore_deletion}[shape['part']](ctx, shape, tier, report)
+
+
+def scenario(ctx, m, kind, info):
+    return {'mutation': scenario_mutation, 'deletion': scenario_deletion}[info['part']](ctx, m, kind, info)
